@@ -163,3 +163,83 @@ def history(inp):
     finally:
         numpoly.set_options(**start)
     return None
+
+
+# ------------------------------------------------------------------ managers made before they are entered
+def gen_prepared(tier, rng):
+    kws = [dict([VALID[0]]), dict([VALID[1], VALID[2]]), dict([VALID[3]]), {}]
+    between = [None, dict([VALID[0]]), dict([VALID[2]]), dict([VALID[1], VALID[3]])]
+    for a in range(len(kws)):
+        for b in range(len(kws)):
+            for s in range(len(between)):
+                for shape in ("single", "nested", "exitstack", "reentered_later"):
+                    for ex in ("normal", "raise"):
+                        yield {"a": a, "b": b, "between": s, "shape": shape, "exit": ex}
+
+
+@check("C14", "history.prepared_managers", gen_prepared, functions=("numpoly.global_options", "numpoly.set_options", "numpoly.get_options"),
+       note="exhaustive over 4 x 4 option sets x 4 set_options calls in between x 4 shapes x 2 exits: the object global_options(...) returns is "
+            "made first and entered later (alone after a set_options call, two prepared managers nested, both on a contextlib.ExitStack, "
+            "entered after another block was opened and closed); the block applies its options to what is in force AT ENTRY and the exit "
+            "restores exactly that")
+def prepared_managers(inp):
+    import contextlib
+    import numpoly
+    kws = [dict([VALID[0]]), dict([VALID[1], VALID[2]]), dict([VALID[3]]), {}]
+    between = [None, dict([VALID[0]]), dict([VALID[2]]), dict([VALID[1], VALID[3]])]
+    ka, kb, ks = kws[inp["a"]], kws[inp["b"]], between[inp["between"]]
+    start = numpoly.get_options()
+
+    def upd(base, kw):
+        out = dict(base)
+        out.update(kw)
+        return out
+
+    def leave():
+        if inp["exit"] == "raise":
+            raise Boom()
+    try:
+        cm_a = numpoly.global_options(**ka)
+        cm_b = numpoly.global_options(**kb)
+        if ks is not None:
+            numpoly.set_options(**ks)
+        entry = upd(start, ks or {})
+        if numpoly.get_options() != entry:
+            return f"making two managers and set_options({ks}) left {numpoly.get_options()}, expected {entry}"
+        try:
+            if inp["shape"] == "single":
+                with cm_a:
+                    if numpoly.get_options() != upd(entry, ka):
+                        return f"inside a manager made before set_options({ks}): {numpoly.get_options()} != {upd(entry, ka)}"
+                    leave()
+            elif inp["shape"] == "nested":
+                with cm_a:
+                    with cm_b:
+                        if numpoly.get_options() != upd(upd(entry, ka), kb):
+                            return f"inside two prepared managers: {numpoly.get_options()} != {upd(upd(entry, ka), kb)}"
+                    if numpoly.get_options() != upd(entry, ka):
+                        return (f"the inner prepared block ({kb}) has ended, the outer one ({ka}) is still open: options "
+                                f"{numpoly.get_options()}, expected {upd(entry, ka)}")
+                    leave()
+            elif inp["shape"] == "exitstack":
+                with contextlib.ExitStack() as stack:
+                    stack.enter_context(cm_a)
+                    stack.enter_context(cm_b)
+                    if numpoly.get_options() != upd(upd(entry, ka), kb):
+                        return f"inside an ExitStack of two prepared managers: {numpoly.get_options()} != {upd(upd(entry, ka), kb)}"
+                    leave()
+            else:
+                with numpoly.global_options(**kb):
+                    pass
+                with cm_a:
+                    if numpoly.get_options() != upd(entry, ka):
+                        return f"inside a prepared manager entered after another block: {numpoly.get_options()} != {upd(entry, ka)}"
+                    leave()
+        except Boom:
+            pass
+        if numpoly.get_options() != entry:
+            return (f"after the prepared blocks ({inp['shape']}, exit {inp['exit']}): options {numpoly.get_options()}; in force when the first "
+                    f"block was entered: {entry}")
+    finally:
+        numpoly.set_options(**start)
+    return None
